@@ -85,8 +85,17 @@ func genScenario(r *kit.Rng, backend, tier string, allowBig bool) *scenario {
 		k := genKey(r, used)
 		keys = append(keys, k)
 		at += int64(r.Intn(3)) * 1000
-		sc.Ops = append(sc.Ops, &op{W: genWrite(r, k, at, tier, allowBig && i == 0)})
-		if r.Chance(1, 3) {
+		w := genWrite(r, k, at, tier, allowBig && i == 0)
+		if r.Chance(1, 6) && w.Size < 2*bucketBytes {
+			// the process dies after the state row, after some chunk rows, or just before the final
+			// state update (first write on this key only)
+			w.CrashAfter = kit.Pick(r, []int{1, 1, 2, 1 + len(w.Reads)/2, 1 + len(w.Reads)})
+			if w.CrashAfter < 1 {
+				w.CrashAfter = 1
+			}
+		}
+		sc.Ops = append(sc.Ops, &op{W: w})
+		if w.CrashAfter > 0 || r.Chance(1, 3) {
 			sc.Ops = append(sc.Ops, &op{R: &readSpec{AtMs: at, Key: k}})
 		}
 	}
